@@ -78,9 +78,11 @@ def _branch_features(body):
                 continue
             # saturation: count > size
             cmp_ = st.test
-            if isinstance(cmp_, ast.Compare) and isinstance(cmp_.ops[0], (ast.Gt, ast.GtE)):
-                lv = _view(cmp_.left, local)
-                if lv and lv[1] == "2" and norm(cmp_.comparators[0]) in ("int1.size", "int2.size"):
+            from sa.astutil import less_than as _lt
+            lt_ = _lt(cmp_, True) if isinstance(cmp_, ast.Compare) else None      # (lo, hi, strict): lo < hi
+            if lt_ is not None:
+                lv = _view(lt_[1], local)
+                if lv and lv[1] == "2" and norm(lt_[0]) in ("int1.size", "int2.size"):
                     from sa.symval import paths as _paths
                     outs, sign_dep = [], False
                     for p_ in _paths(st.body, env=dict(local)):
@@ -221,15 +223,66 @@ def _rotation(stmts):
 
 
 def _modint_classes(ck):
+    """moduint.__div__ truncates toward zero (|num| // |den| times the sign of num*den) and __mod__ takes the dividend's sign
+    (self - y * (self // y)).  Decided on the returned expression with locals substituted (sa/symval), comparison orientation and
+    operand order of commutative operators being irrelevant."""
+    from sa.symval import paths
+    from sa.astutil import less_than
     m = ck.repo.mod(MI)
     d = m.func("moduint.__div__")
-    txt = norm(ast.Module(body=d.body, type_ignores=[])).replace(" ", "")
-    trunc = "abs(num)//abs(den)" in txt and "result_sign" in txt and ("1ifden*num>=0else-1" in txt)
+
+    def is_num(e, who):
+        t = norm(e).replace(" ", "")
+        return t in ("int(%s)" % who, "%s.arg" % who, "int(%s.arg)" % who)
+
+    def sign_factor(e):
+        """1 if num*den >= 0 else -1 (any spelling)"""
+        if not isinstance(e, ast.IfExp):
+            return False
+        lt = less_than(e.test, True)
+        if lt is None:
+            return False
+        lo, hi, strict = lt
+        pos, neg = norm(e.body), norm(e.orelse)
+
+        def is_prod(x):
+            return isinstance(x, ast.BinOp) and isinstance(x.op, ast.Mult) and ((is_num(x.left, "self") and is_num(x.right, "y")) or (is_num(x.left, "y") and is_num(x.right, "self")))
+        # 0 <= prod (non strict) -> body is the non-negative case ; prod < 0 -> body is the negative case
+        if norm(lo) == "0" and is_prod(hi) and not strict:
+            return pos == "1" and neg == "-1"
+        if is_prod(lo) and norm(hi) == "0" and strict:
+            return pos == "-1" and neg == "1"
+        if norm(lo) == "-1" and is_prod(hi) and strict:
+            return pos == "1" and neg == "-1"
+        return False
+    trunc = False
+    rets = [p_.value for p_ in paths(d.body, limit=8) if p_.kind == "return" and p_.value is not None]
+    if rets:
+        trunc = True
+        for v in rets:
+            while isinstance(v, ast.Call) and len(v.args) == 1 and not isinstance(v.func, ast.Attribute) and norm(v.func) in ("cls", "self.__class__"):
+                v = v.args[0]
+            ok = isinstance(v, ast.BinOp) and isinstance(v.op, ast.Mult)
+            if ok:
+                q, sg = (v.left, v.right) if isinstance(v.left, ast.BinOp) else (v.right, v.left)
+                ok = isinstance(q, ast.BinOp) and isinstance(q.op, ast.FloorDiv) and isinstance(q.left, ast.Call) and norm(q.left.func) == "abs" and \
+                    isinstance(q.right, ast.Call) and norm(q.right.func) == "abs" and is_num(q.left.args[0], "self") and is_num(q.right.args[0], "y") and sign_factor(sg)
+            trunc = trunc and ok
     fd = m.func("moduint.__floordiv__")
-    deleg = any(isinstance(n, ast.Return) and norm(n.value) == "self.__div__(y)" for n in walk_body(fd))
+    deleg = any(isinstance(n, ast.Return) and norm(n.value) in ("self.__div__(y)",) for n in walk_body(fd))
     md = m.func("moduint.__mod__")
-    txt = norm(ast.Module(body=md.body, type_ignores=[])).replace(" ", "")
-    dividend = "self.arg-y*(self//y)" in txt
+    dividend = False
+    rets = [p_.value for p_ in paths(md.body, limit=8) if p_.kind == "return" and p_.value is not None]
+    if rets:
+        dividend = True
+        for v in rets:
+            while isinstance(v, ast.Call) and len(v.args) == 1 and norm(v.func) in ("cls", "self.__class__", "self.maxcast(y)"):
+                v = v.args[0]
+            ok = isinstance(v, ast.BinOp) and isinstance(v.op, ast.Sub) and is_num(v.left, "self") and isinstance(v.right, ast.BinOp) and isinstance(v.right.op, ast.Mult)
+            if ok:
+                parts = [norm(v.right.left).replace(" ", ""), norm(v.right.right).replace(" ", "")]
+                ok = sorted(parts) in (sorted(["y", "self//y"]), sorted(["y", "(self//y)"]), sorted(["int(y)", "self//y"]))
+            dividend = dividend and ok
     return (trunc and deleg), dividend, m, d, md
 
 
